@@ -67,7 +67,7 @@ RandQuery(name, n) == QueryOp(name, Rnd(QPrefixes, n), IF Rnd(0..3, n) = 0 THEN 
 RandBatch(K, n) == LET len == Rnd(1..4, n) IN [j \in 1..len |-> BatchEl(Rnd(K, n), RandData(n), RandMeta(n), Rnd(Forms, n))]
 
 Families == <<"put", "put", "put", "put", "putnew", "get", "get", "get", "exists", "delete", "delete", "putmany", "purge",
-              "setabs", "setabs", "flag", "maintain", "query", "query", "query", "query", "flush">>
+              "setabs", "setabs", "flag", "maintain", "query", "query", "query", "query", "flush", "setrelfar">>
 TimedFamilies == <<"tick", "tick", "setrel", "get", "query">>
 RandOp(K, n) ==
     LET F == IF Timed THEN Families \o TimedFamilies ELSE Families
@@ -81,6 +81,8 @@ RandOp(K, n) ==
          [] f = "purge"   -> RandQuery("Purge", n)
          [] f = "setabs"  -> NumOp("SetAbsoluteExpiry", Rnd(K, n), RandExp(n))
          [] f = "setrel"  -> NumOp("SetRelativeExpiry", Rnd(K, n), Rnd({1, 2}, n))
+         \* a relative expiry far in the future: its interplay with absolute expiries and later saves shows without waiting
+         [] f = "setrelfar" -> NumOp("SetRelativeExpiry", Rnd(K, n), 3600)
          [] f = "flag"    -> KeyOp(Rnd({"MakeSecret", "MakeCrownJewel"}, n), Rnd(K, n))
          [] f = "maintain" -> PlainOp(Rnd(Maintenance, n))
          [] f = "query"   -> RandQuery("Query", n)
